@@ -129,6 +129,9 @@ impl Prop for C02 {
             "strings ending in NUL at even length excluded (unrepresentable)".into(),
         ]
     }
+    fn miri_gen(&self) -> Option<&'static str> {
+        Some("random")
+    }
     fn plan(&self, tier: Tier) -> Vec<GenSpec> {
         vec![
             GenSpec::enumerated("sweep", sweep_count()),
